@@ -112,6 +112,43 @@ EDITS = [
 ]
 
 
+SHAPES_CC_BROKEN = SHAPES_CC.replace('sh:ask "ASK { FILTER (STRLEN(STR($value)) <= $maxLen) }"', 'sh:ask "ASK { FILTER (STRLEN(STR($value)) <= $maxLen "')
+SHAPES_TEXT_BROKEN = PFX + """ex:S a sh:NodeShape ; sh:targetClass ex:C ; sh:property [ sh:path ex:p ; sh:maxCount 1 ] .
+ex:T a sh:NodeShape ; sh:targetClass ex:C ; sh:minCount 1 .
+"""
+
+
+def repaired_histories():
+    """a call fails on a graph object after it has looked at (and possibly cached) parts of it; the user repairs the graph in
+    place and changes exactly those parts; the next call must see the graph as it is now"""
+    out = []
+    base = [{"op": "graph", "name": k, "ttl": v} for k, v in GRAPHS.items()]
+    # SPARQL validator: broken query, then fixed query + reworded message / other validator kind
+    fixes = [
+        ["PREFIX sh: <http://www.w3.org/ns/shacl#> DELETE { ?v sh:ask ?q ; sh:message ?m } INSERT { ?v sh:ask \"ASK { FILTER (STRLEN(STR($value)) <= $maxLen) }\" ; sh:message \"longer than allowed\" } WHERE { ?v sh:ask ?q ; sh:message ?m }"],
+        ["PREFIX sh: <http://www.w3.org/ns/shacl#> DELETE { ?v sh:ask ?q } INSERT { ?v sh:ask \"ASK { FILTER (STRLEN(STR($value)) > $maxLen) }\" } WHERE { ?v sh:ask ?q }"],
+    ]
+    for fx in fixes:
+        for pre in ([], ["ok_basic"]):
+            steps = list(base) + [{"op": "graph", "name": "s_ccbroken", "ttl": SHAPES_CC_BROKEN}]
+            model = []
+            for name in pre:
+                steps.append(dict(json.loads(json.dumps(CALLS[name][0])), label=name)); model.append((name, CALLS[name][1]))
+            steps.append({"op": "validate", "data": g("d"), "shapes": g("s_ccbroken"), "kw": {}, "label": "fail_cc_query"}); model.append(("fail_cc_query", (1, 0, 0, [], "validate")))
+            steps.append({"op": "edit", "name": "s_ccbroken", "update": fx})
+            steps.append({"op": "validate", "data": g("d"), "shapes": g("s_ccbroken"), "kw": {}, "label": "ok_cc_repaired"}); model.append(("ok_cc_repaired", (1, 0, 0, [], "-")))
+            out.append((steps, model))
+    # blank-node text: ex:S reports (its blank property shape is rendered), then ex:T fails to load; repaired and ex:S changed
+    steps = list(base) + [{"op": "graph", "name": "s_textbroken", "ttl": SHAPES_TEXT_BROKEN}]
+    steps.append({"op": "validate", "data": g("d"), "shapes": g("s_textbroken"), "kw": {}, "label": "fail_text"})
+    steps.append({"op": "edit", "name": "s_textbroken", "update": [
+        "PREFIX sh: <http://www.w3.org/ns/shacl#> PREFIX ex: <http://ex.test/> DELETE { ex:T sh:minCount ?o } WHERE { ex:T sh:minCount ?o }",
+        "PREFIX sh: <http://www.w3.org/ns/shacl#> DELETE { ?b sh:maxCount ?o } INSERT { ?b sh:maxCount 0 } WHERE { ?b sh:maxCount ?o }"]})
+    steps.append({"op": "validate", "data": g("d"), "shapes": g("s_textbroken"), "kw": {}, "label": "ok_text_repaired"})
+    out.append((steps, [("fail_text", (1, 0, 0, [], "validate")), ("ok_text_repaired", (1, 0, 0, [], "-"))]))
+    return out
+
+
 def gen_history(rng):
     names = list(CALLS)
     n = rng.randint(2, 6)
@@ -151,6 +188,7 @@ def run(ctx, out):
                 "definitions, data fixes, graph object replacement); last call compared with a one-shot process; non-trivial = "
                 "distinct history with >=1 failing call or >=1 edit before the last call")
     hists = [gen_history(rng) for _ in range(n)]
+    hists += repaired_histories()
     lines = []
     for k, (steps, model) in enumerate(hists):
         toks = []
